@@ -1,0 +1,17 @@
+//go:build verif
+
+package wgsl
+
+// Verification hook (build tag `verif`, add-only): re-export of
+// lower.VerifLowerRaw for the external verification harness.
+
+import (
+	"github.com/gogpu/naga/ir"
+	"github.com/gogpu/naga/wgsl/internal/lower"
+)
+
+// VerifLowerRaw lowers the AST but stops before the trailing IR compaction
+// passes; finish() runs buildGlobalExpressions on the returned module.
+func VerifLowerRaw(ast *Module, source string) (*ir.Module, func(), error) {
+	return lower.VerifLowerRaw(ast.inner, source)
+}
